@@ -69,7 +69,8 @@ func (c06Sys) Letters(s *c06State) []engine.Letter {
 }
 
 // c06Msg builds the finalize message for a sequence: seq 2 has a malformed recipient (refund path),
-// seq 3 is credited but carries an undecodable hook (minted, reclaimed, burnt, refunded);
+// seq 3 is credited but carries an undecodable hook (minted, reclaimed, burnt, refunded); seq 4
+// (original content) carries a hook in which the delivering executor relays seq 4 once more;
 // "altered" content differs in recipient and amount from what was (or will be) processed.
 // toName == "" means the deposit ends in a refund.
 func c06Msg(seq uint64, by string, variant int) (*opchildtypes.MsgFinalizeTokenDeposit, string, int64) {
@@ -150,6 +151,16 @@ func (c06Sys) Step(s *c06State, l engine.Letter) (*c06State, string, *engine.Vio
 		return c, "rejected", nil
 	case c06Deliver:
 		msg, toName, amt := c06Msg(d.seq, d.by, d.variant)
+		if d.seq == 4 && d.variant == 0 {
+			// re-entrant relay: the deposit's hook, signed by the delivering account itself, relays this
+			// very deposit again (same sequence, no hook). While the hook runs the sequence already
+			// counts as processed, so the inner message is a no-op and the deposit is credited once.
+			if acc := s.w.AK.GetAccount(ctx, world.Addr(d.by)); acc != nil {
+				inner := *msg
+				key := world.SecpKey(d.by)
+				msg.Data = signHookTx(s.w, []sdk.Msg{&inner}, key, key.PubKey(), acc.GetAccountNumber(), acc.GetSequence(), ctx.ChainID())
+			}
+		}
 		res := s.w.Deliver(ctx, msg)
 		authorised := (d.by == "e1" && s.execs[0]) || (d.by == "e2" && s.execs[1])
 		unchanged := s.w.Digest(ctx) == before
